@@ -36,11 +36,14 @@ pub struct Net {
     pub dropped_total: u64,
     /// log of every packet handed to the network: (time, from, to)
     pub log_sizes: HashMap<(Addr, Addr), u64>,
+    /// magic number last seen on each directed link (what the receiver knows as the sender's magic)
+    pub magic_seen: HashMap<(Addr, Addr), u16>,
 }
 
 impl Net {
     pub fn send(&mut self, from: Addr, to: Addr, msg: &Message) {
         self.sent_total += 1;
+        self.magic_seen.insert((from, to), ggrs::verif::msg::view(msg).magic);
         if self.dead.contains(&from) || self.dead.contains(&to) {
             self.dropped_total += 1;
             return;
